@@ -63,7 +63,7 @@ func init() {
 				return
 			}
 			x.Release()
-			x.Data["pair"] = pr
+			x.Put("pair", pr)
 			as := byte('p')
 			accTLS := plugTLS
 			if p["dir"] == "p2h" {
@@ -88,7 +88,7 @@ func init() {
 				defer close(fin)
 				cc, err := db.Dial(id)
 				if err != nil {
-					x.Data["legit"] = fmt.Sprintf("Dial: %v", err)
+					x.Put("legit", fmt.Sprintf("Dial: %v", err))
 					return
 				}
 				x.OnCleanup(func() { cc.Close() })
@@ -96,7 +96,7 @@ func init() {
 				tag, err := pingTag(ctx, cc)
 				cancel()
 				if err != nil || tag != "51" {
-					x.Data["legit"] = fmt.Sprintf("first call: %q %v", tag, err)
+					x.Put("legit", fmt.Sprintf("first call: %q %v", tag, err))
 					return
 				}
 				// ---- the other peer
@@ -138,13 +138,13 @@ func init() {
 				// the legitimate connection still works
 				ctx3, cancel3 := context.WithTimeout(context.Background(), 20*time.Second)
 				if _, err := pingTag(ctx3, cc); err != nil {
-					x.Data["legit"] = fmt.Sprintf("call after the intrusion attempt: %v", err)
+					x.Put("legit", fmt.Sprintf("call after the intrusion attempt: %v", err))
 				}
 				cancel3()
 				cc.Close()
 			})
 			<-fin
-			x.Data["completed"] = true
+			x.Put("completed", true)
 		},
 		Check: func(x *vs.Exec, p explore.Params) {
 			desc := fmt.Sprintf("mux=%s dir=%s cred=%s", p["mux"], p["dir"], p["cred"])
